@@ -821,3 +821,24 @@ Proof.
   apply Forall_app in Fs as [Fp Fs]. apply Forall_app in Fs as [Fc Fe].
   eapply json_context_splice; eauto.
 Qed.
+
+(* ---- fractional timestamps far from the epoch: the binary format cannot carry them ----
+   CBOR tag 1 carries float64 seconds.  Every float64 is m * 2^e with |m| < 2^53.
+   T9 is the instant 2^34 s + 123456789 ns (year 2514) in nanoseconds.  No float64 is
+   within one microsecond of it: scaled by 10^9 * 2^18 (and by 2^(-18-e) when e < -18)
+   the claim |m * 2^e - T9/10^9| > 10^-6 reads as below. *)
+Definition T9 : Z := (2^34 * 10^9 + 123456789)%Z.
+Lemma time_far_coarse : forall m p : Z, (1 <= p -> Z.abs (m * p * 10^9 - T9 * 2^18) > 10^3 * 2^18)%Z.
+Proof. intros m p Hp. unfold T9. set (x := (m * p)%Z). clearbody x. lia. Qed.
+Lemma time_far_fine : forall m p : Z, (2 <= p -> Z.abs m < 2^53 -> Z.abs (m * 10^9 - T9 * 2^18 * p) > 10^3 * 2^18 * p)%Z.
+Proof. intros m p Hp Hm. unfold T9. lia. Qed.
+Theorem time_far_refuted : forall m e : Z, (Z.abs m < 2^53)%Z ->
+  if (-18 <=? e)%Z then (Z.abs (m * 2^(e+18) * 10^9 - T9 * 2^18) > 10^3 * 2^18)%Z
+  else (Z.abs (m * 10^9 - T9 * 2^18 * 2^(-18-e)) > 10^3 * 2^18 * 2^(-18-e))%Z.
+Proof.
+  intros m e Hm. destruct (Z.leb_spec (-18) e) as [H|H].
+  - apply time_far_coarse. assert (0 < 2^(e+18))%Z by (apply Z.pow_pos_nonneg; lia). lia.
+  - apply time_far_fine; [|exact Hm].
+    replace (-18 - e)%Z with (Z.succ (-19 - e)) by lia. rewrite Z.pow_succ_r by lia.
+    assert (0 < 2^(-19-e))%Z by (apply Z.pow_pos_nonneg; lia). lia.
+Qed.
